@@ -117,5 +117,7 @@ CFG = {
     'level_note': 'trusted: Coq kernel; hand-written skeleton; the named numeric hypotheses; harness and driver',
     'note': 'rel14* lines: implementation-only oracle (holds / fails <detail>), the model runner answers `holds`; a `fails` '
             'line is an input of the quantified domain on which the implementation panics or returns non-finite geometry. '
-            'fit3 lines: model and implementation must agree on noinit / track',
+            'fit3 lines: model and implementation must agree on noinit / track. OPEN FINDING tinyphi (rel14kf-tinyphi-*, '
+            'corpus/C14/tinyphi.case): Track::try_from panics (found NaN in track_fitting::cost_function) on clusters straight to '
+            'better than ~1e-150 m but not exactly collinear; Coq side: Fit.tinyphi_class, C14_tinyphi_known_witness',
 }
